@@ -25,8 +25,7 @@ theorem span_spec_value (fl : Flags) (toks : List Tok) (v : Value) (h : parseVal
 def SpanSpecDocument : Prop :=
   ∀ (fl : Flags) (toks : List Tok) (d : Document), parseDocument fl toks = .ok d → Item.SpansAll fl [documentV d] toks
 
-/-- `span_spec` for the two sub-grammars proved (values, types; all flags). MISSING: documents — follows from
-    `C01.ParseSoundDocument` by `matches_spans`, which is proved for every view. -/
+/-- `span_spec` for values and types (kept from phase 1); documents: `span_spec_document` below (full). -/
 theorem span_spec_partial (fl : Flags) (toks : List Tok) :
     (∀ v, parseValue fl toks = .ok v → Item.SpansAll fl [p .sof, valueV v, p .eof] toks) ∧
     (∀ t, parseType fl toks = .ok t → Item.SpansAll fl [p .sof, typeV t, p .eof] toks) :=
@@ -35,6 +34,23 @@ theorem span_spec_partial (fl : Flags) (toks : List Tok) :
 /-- the reduction of the document statement to C01's: spans come for free from soundness, for EVERY view -/
 theorem span_spec_of_sound (hs : ParseSoundDocument) : SpanSpecDocument :=
   fun fl toks d h => matches_spans _ _ _ (hs fl toks d h).2
+
+/-- spans for documents, given soundness of the type-system layer when reachable -/
+theorem span_spec_document_of (fl : Flags) (hTS : ∀ fuel, fl.allowTypeSystem = true → TSSound fl fuel)
+    (toks : List Tok) (d : Document) (h : parseDocument fl toks = .ok d) : Item.SpansAll fl [documentV d] toks :=
+  matches_spans _ _ _ (parseDocument_sound_of fl hTS toks d h).2
+
+/-- `span_spec` for EXECUTABLE documents (`allow_type_system=False`, every other flag combination): every node of
+    the tree — operations, variable definitions (incl. default values and directives), fields, arguments,
+    directives, fragments, values, types, names — has `loc` = (start of its first token, end of its last token),
+    children consecutive inside the parent. -/
+theorem span_spec_executable (fl : Flags) (hx : fl.allowTypeSystem = false) (toks : List Tok) (d : Document)
+    (h : parseDocument fl toks = .ok d) : Item.SpansAll fl [documentV d] toks :=
+  matches_spans _ _ _ (parse_sound_executable fl hx toks d h).2
+
+/-- `span_spec` IN FULL: every document (executable and type-system), all 8 flag combinations. -/
+theorem span_spec_document : SpanSpecDocument :=
+  span_spec_of_sound parse_sound_document
 
 /-! ### `no_location` -/
 
@@ -82,6 +98,13 @@ theorem noloc_all_none (fl : Flags) (hf : fl.noLocation = true) (toks : List Tok
     have := checkAll_noLoc fl hf _ _ _ _ _ hm
     simp [noLocAll] at this; exact this.2.1
 
+/-- with `no_location` every `loc` of a parsed DOCUMENT (any flags otherwise) is absent -/
+theorem noloc_all_none_document (fl : Flags) (hf : fl.noLocation = true) (toks : List Tok) (d : Document)
+    (h : parseDocument fl toks = .ok d) : noLoc (documentV d) = true := by
+  obtain ⟨l', hm⟩ := (matches_iff _ _ _).1 (parse_sound_document fl toks d h).2
+  have := checkAll_noLoc fl hf _ _ _ _ _ hm
+  simp [noLocAll] at this; exact this
+
 /-- A CONSEQUENCE of the full `noloc_erasure` statement ("the `no_location` tree is the located tree with every
     `loc` erased"): accept/reject does not depend on `no_location`.  NOT PROVED (kept visible): it needs an `erase`
     function on the AST and `parse {fl with noLocation := true} toks = (parse fl toks).map erase`.  Proved above:
@@ -99,5 +122,19 @@ private def toksT : List Tok :=
 example : parseType {} toksT =
     .ok (.list (.nonNull (.named ⟨⟨[65], some (2, 3)⟩, some (2, 3)⟩) (some (2, 4))) (some (0, 6))) := rfl
 example : parseType { noLocation := true } toksT = .ok (.list (.nonNull (.named ⟨⟨[65], none⟩, none⟩) none) none) := rfl
+
+/-- `query ($foo: Int = 42 @bar) { foo }` (positions of the text): the VariableDefinition spans `$foo … @bar`
+    = (7, 26), i.e. it INCLUDES its directives; the operation spans (0, 35) -/
+private def toksQ : List Tok :=
+  [tk .sof 0 0, tk .name 0 5 [113, 117, 101, 114, 121], tk .parenL 6 7, tk .dollar 7 8, tk .name 8 11 [102, 111, 111],
+   tk .colon 11 12, tk .name 13 16 [73, 110, 116], tk .equals 17 18, tk .int 19 21 [52, 50], tk .atSign 22 23,
+   tk .name 23 26 [98, 97, 114], tk .parenR 26 27, tk .curlyL 28 29, tk .name 30 33 [102, 111, 111],
+   tk .curlyR 34 35, tk .eof 35 35]
+
+example : (parseDocument {} toksQ).toBool = true := by decide
+example : ∃ d, parseDocument {} toksQ = .ok d ∧
+    (match d.definitions with
+     | [.operation od] => od.loc = some (0, 35) ∧ (od.variableDefinitions.map (·.loc)) = [some (7, 26)]
+     | _ => False) := ⟨_, rfl, by decide⟩
 
 end PyGql.Props.C02
